@@ -365,15 +365,23 @@ inductive AuthBlockRun (valid : Bool) : V1State → Event → List Event → Eve
   | next {s s' : V1State} {w e w' : Event} {more : List Event} : v1Allowed s valid e = true →
       AuthBlockRun valid (s.addAuthEvent e) e more w' s' → AuthBlockRun valid s w (e :: more) w' s'
 
-/-- One phase: the blocks are resolved one after the other; a block's winner is taken out of the registered events
-    again until the phase is over (its slot stays empty meanwhile). -/
+/-- After a block: its winner is taken out of the registered events again (it is registered only when the whole
+    phase is over) and the block's slot holds again what it held before the block — the supplied auth event, if any —
+    so that every block of a phase is resolved against the same registered events, whatever the order of the blocks. -/
+def afterBlock (s s1 : V1State) (c0 w : Event) : V1State :=
+  let s2 := s1.removeAuthEvent w.type (w.stateKey.getD [])
+  match s.authEventAt c0.type (c0.stateKey.getD []) with
+  | some p => s2.addAuthEvent p
+  | none => s2
+
+/-- One phase: the blocks are resolved one after the other, each leaving the registered events as it found them. -/
 inductive PhaseRun (sha : ID → Bytes) (valid : Bool) : V1State → List (List Event) → V1State → List Event → Prop
   | nil {s : V1State} : PhaseRun sha valid s [] s []
   | skip {s s' : V1State} {blocks : List (List Event)} {ws : List Event} :
       PhaseRun sha valid s blocks s' ws → PhaseRun sha valid s ([] :: blocks) s' ws
   | block {s s1 s' : V1State} {block rest : List Event} {c0 w : Event} {blocks : List (List Event)} {ws : List Event} :
       IsV1Order sha block (c0 :: rest) → AuthBlockRun valid (s.addAuthEvent c0) c0 rest w s1 →
-      PhaseRun sha valid (s1.removeAuthEvent w.type (w.stateKey.getD [])) blocks s' ws →
+      PhaseRun sha valid (afterBlock s s1 c0 w) blocks s' ws →
       PhaseRun sha valid s (block :: blocks) s' (w :: ws)
 
 /-- after a phase its winners are registered -/
